@@ -187,7 +187,7 @@ func processDocLine(gl *GenLine, pool []Expr, rep *Report, fnd *Findings) {
 		styles := baseStyles
 		if strings.HasPrefix(gl.Fam, "C08.") {
 			rng := rand.New(rand.NewSource(int64(ci) + seedFromEnv()))
-			styles = []Style{{}, {Abbrev: true, Space: 1}, {FullParens: true, Space: 2, Rng: rng}, {Abbrev: true, FullParens: true, Space: 2, Rng: rng}}
+			styles = []Style{{}, {Abbrev: true, Space: 1}, {FullParens: true, Space: 2, Rng: rng, PadNum: 1}, {Abbrev: true, FullParens: true, Space: 2, Rng: rng, PadNum: 2}}
 		}
 		fails, judged, text := b.judgeExec(gl.Fam, env, gc.Ctx, gc.E, gc.R, styles)
 		if gl.Fam == "C04.nodes" && gc.E.Op == "call" && str(gc.E.Lo) == "string" && len(gc.E.Args) == 0 && gc.R.T == "str" {
